@@ -2,6 +2,7 @@ package c08
 
 import (
 	"fmt"
+	spb "github.com/openconfig/gribi/v1/proto/service"
 	"strings"
 
 	"pgregory.net/rapid"
@@ -26,12 +27,14 @@ type Inject struct {
 	Op    *gen.Op  `json:"op"`
 	// Resolved: the RIB's resolved-entry hook is registered as well (see inject.Spec)
 	Resolved bool `json:"resolved,omitempty"`
+	// AddNI, when set, replaces Op: the second actor creates this network instance at runtime
+	AddNI string `json:"addni,omitempty"`
 }
 
 func runInject(c Case) *ev.Verdict {
 	v := &ev.Verdict{}
 	in := c.Inject
-	res := inject.Run(c.H, inject.Spec{Flush: in.Flush, At: in.At, Op: in.Op, Resolved: in.Resolved}, nil)
+	res := inject.Run(c.H, inject.Spec{Flush: in.Flush, At: in.At, Op: in.Op, Resolved: in.Resolved, AddNI: in.AddNI}, nil)
 	r, m := res.R, res.Before
 	if res.Pre == nil {
 		v.Fail("C08/contents-unreadable", "before the flush")
@@ -46,7 +49,14 @@ func runInject(c Case) *ev.Verdict {
 	for k := range res.Pre {
 		nonEmpty[k.NI] = true
 	}
-	op := in.Op.Proto()
+	var op *spb.AFTOperation
+	what := "AddNetworkInstance(" + in.AddNI + ")"
+	if in.AddNI == "" {
+		op = in.Op.Proto()
+		what = in.Op.String()
+	} else {
+		v.Class("inject:network-instance-created-during-the-flush")
+	}
 	injected, parked := res.Injected, res.Parked
 	if hg := res.Hang; hg != nil {
 		if hg.Blocked != "" {
@@ -64,7 +74,7 @@ func runInject(c Case) *ev.Verdict {
 		v.Class("inject:operation-completed-inside-the-flush")
 	}
 	if res.FlushErr != nil {
-		v.Fail("C08/flush-error", "Flush(%v) with %s injected at notification %d returned %v", in.Flush, in.Op, in.At, res.FlushErr)
+		v.Fail("C08/flush-error", "Flush(%v) with %s injected at notification %d returned %v", in.Flush, what, in.At, res.FlushErr)
 	}
 	got, err := obs.FromRIB(r)
 	if err != nil {
@@ -74,25 +84,28 @@ func runInject(c Case) *ev.Verdict {
 	// the two linearisations
 	a := m.Clone() // operation first, then the flush
 	b := m.Clone() // flush first, then the operation
-	if injected {
+	if injected && op != nil {
 		a.BeliefApply(in.Op.NI, op)
+	}
+	if injected && op == nil && res.OpErr != nil {
+		v.Fail("C08/add-network-instance-failed", "AddNetworkInstance(%s) during Flush(%v): %v", in.AddNI, in.Flush, res.OpErr)
 	}
 	a.Flush(in.Flush)
 	b.Flush(in.Flush)
-	if injected {
+	if injected && op != nil {
 		b.BeliefApply(in.Op.NI, op)
 	}
 	da, db := obs.Diff(obs.FromModel(a), got), obs.Diff(obs.FromModel(b), got)
 	if len(da) > 0 && len(db) > 0 {
 		rs := fmt.Sprintf("oks=%d fails=%d err=%v", len(res.OKs), len(res.Fails), res.OpErr)
-		v.Fail("C08/flush-not-atomic:"+obs.DiffClass(db), "Flush(%v) with %s started at its notification %d (%s; operation waited for a lock: %v): the resulting contents equal neither 'operation, then flush' (%s) nor 'flush, then operation' (%s)", in.Flush, in.Op, in.At, rs, parked, strings.Join(da, "; "), strings.Join(db, "; "))
+		v.Fail("C08/flush-not-atomic:"+obs.DiffClass(db), "Flush(%v) with %s started at its notification %d (%s; operation waited for a lock: %v): the resulting contents equal neither 'operation, then flush' (%s) nor 'flush, then operation' (%s)", in.Flush, what, in.At, rs, parked, strings.Join(da, "; "), strings.Join(db, "; "))
 		return v
 	}
 	fin := model.New("DEFAULT", hgen.NIs[1:], false)
 	for k, p := range got {
 		fin.Ent[k] = p
 	}
-	obs.CheckCounters(fin, r, v, "C08/counter-vs-referrers", fmt.Sprintf("after Flush(%v) with %s injected at notification %d", in.Flush, in.Op, in.At))
+	obs.CheckCounters(fin, r, v, "C08/counter-vs-referrers", fmt.Sprintf("after Flush(%v) with %s injected at notification %d", in.Flush, what, in.At))
 	v.NonTrivial = injected && len(nonEmpty) >= 2
 	return v
 }
@@ -145,6 +158,9 @@ func drawInject(rt *rapid.T) Case {
 		c2 := cfg
 		c2.NoReplace = false
 		in.Op = hgen.DrawOp(rt, belief, c2, 900000)
+	}
+	if rapid.IntRange(0, 5).Draw(rt, "add-instance?") == 0 {
+		in.AddNI = "VRF-NEW"
 	}
 	return Case{Mode: "inject", H: h, Inject: in}
 }
